@@ -135,7 +135,7 @@ def run(ctx):
     gl = 14
     gc = {"MaxSegW": 5, "MaxQW": 14, "Words": {1, 2, 5}, "SegSizes": {3, 5}, "MaxBlocks": 8, "BufT": 2, "MaxTok": 2,
           "Apps": ["a1"], "Dev": ['"ackBeforeDurable"'], "MaxSegId": 99, "MaxSent": 99, "GenLen": gl}
-    num = ctx.pick(120, 800)
+    num = ctx.pick(120, 400)
     if ctx.replay:
         rp = json.load(open(ctx.replay))["replay"]
         inp = {"consts": rp.get("consts"), "behaviours": [rp.get("behaviour")]}
@@ -146,7 +146,7 @@ def run(ctx):
         # rollover-heavy behaviours: one block per segment, more than ten segments, close/reopen in between
         gr = dict(gc, MaxSegW=3, MaxQW=200, Words={1, 2}, SegSizes={3}, MaxBlocks=14, GenLen=22)
         ctx.write_cfg(sd, "GenR.cfg", "GSpecQ", gr, extra="INVARIANT Emit")
-        nr = ctx.pick(25, 150)
+        nr = ctx.pick(25, 100)
         behs_r = ctx.tlc_generate(sd, "HHQueueGen", "GenR.cfg", num=nr, depth=23)[:nr]
         inp_r = {"consts": {k: v for k, v in gr.items() if isinstance(v, int)}, "behaviours": behs_r}
     def run_q(inp, label):
@@ -173,7 +173,7 @@ def run(ctx):
             inp_p = {"consts": rp["consts"], "behaviours": [rp["behaviour"]]}
         else:
             ctx.write_cfg(sd, "GenP.cfg", "GSpecP", gp, extra="INVARIANT Emit")
-            nump = ctx.pick(100, 1500)
+            nump = ctx.pick(100, 800)
             behs_p = ctx.tlc_generate(sd, "HHQueueGen", "GenP.cfg", num=nump, depth=gl + 1)[:nump * 2]
             inp_p = {"consts": {k: v for k, v in gp.items() if isinstance(v, int)}, "behaviours": behs_p}
         def run_p(inp, label):
@@ -200,7 +200,7 @@ def run(ctx):
         neg = ctx.tlc_check(sd, "HHService", "SvcNeg.cfg", workers=4, timeout=300, expect_ok=False)
         if neg["ok"]:
             raise Infra("negative control: HHService without write-under-lock does not violate C04_ServiceNoLoss")
-        recs, out, rc = ctx.go_test(PKG, FILES, "^TestVerifHHServiceStress$", env={"VERIF_ROUNDS": ctx.pick(8, 120)}, timeout=1800, label="servicestress")
+        recs, out, rc = ctx.go_test(PKG, FILES, "^TestVerifHHServiceStress$", env={"VERIF_ROUNDS": ctx.pick(8, 40)}, timeout=3000, label="servicestress")
         ctx.process(recs, out, rc, "TestVerifHHServiceStress")
     # 3. real concurrent executions (buffered path, racing Close) -> HHQueueTrace
     tr = concurrent(ctx, sd)
